@@ -266,16 +266,20 @@ fn collect_blob_candidates(repo: &Path) -> io::Result<Vec<BlobCandidate>> {
         .stdout(Stdio::piped())
         .stderr(Stdio::piped());
     let mut child = cmd.spawn()?;
-    {
+    // Feed the ids from a separate thread: writing them all before reading any reply
+    // deadlocks once both pipe buffers are full.
+    let writer = {
         let mut stdin = child
             .stdin
             .take()
             .ok_or_else(|| io::Error::other("failed to open git cat-file stdin"))?;
+        let mut request = Vec::with_capacity(object_lines.len() * 41);
         for oid in &object_lines {
-            stdin.write_all(oid.as_bytes())?;
-            stdin.write_all(b"\n")?;
+            request.extend_from_slice(oid.as_bytes());
+            request.push(b'\n');
         }
-    }
+        std::thread::spawn(move || stdin.write_all(&request))
+    };
 
     let stdout = child
         .stdout
@@ -301,6 +305,7 @@ fn collect_blob_candidates(repo: &Path) -> io::Result<Vec<BlobCandidate>> {
         line.clear();
     }
 
+    let _ = writer.join();
     let status = child.wait()?;
     if !status.success() {
         return Err(io::Error::other(
@@ -329,16 +334,19 @@ fn scan_blob_candidates(
         .stdout(Stdio::piped())
         .stderr(Stdio::piped());
     let mut child = cmd.spawn()?;
-    {
+    // See collect_blob_candidates: requests are written concurrently with reading replies.
+    let writer = {
         let mut stdin = child
             .stdin
             .take()
             .ok_or_else(|| io::Error::other("failed to open git cat-file stdin"))?;
+        let mut request = Vec::with_capacity(candidates.len() * 41);
         for candidate in candidates {
-            stdin.write_all(candidate.oid.as_bytes())?;
-            stdin.write_all(b"\n")?;
+            request.extend_from_slice(candidate.oid.as_bytes());
+            request.push(b'\n');
         }
-    }
+        std::thread::spawn(move || stdin.write_all(&request))
+    };
 
     let stdout = child
         .stdout
@@ -386,6 +394,7 @@ fn scan_blob_candidates(
         );
     }
 
+    let _ = writer.join();
     let status = child.wait()?;
     if !status.success() {
         return Err(io::Error::other(
